@@ -102,6 +102,14 @@ class Collector:
         if self.per_mech[(prop, mech)] <= self.max_per_mech:
             self.violations.append({"prop": prop, "mech": mech, "witness": S.jsonable(witness), "replay": replay})
 
+    def generic(self, log, replay):
+        """Run the spec-free per-execution monitors (C02-C05, C14) on any log."""
+        viol, st = sched.check_generic(log)
+        self.counters.update(st)
+        for x in viol:
+            self.violation(x["prop"], x["mech"], x["witness"], replay)
+        return viol
+
     def sample(self, s):
         if len(self.samples) < self.max_samples:
             self.samples.append(S.jsonable(s))
@@ -248,7 +256,9 @@ def eval_case(col, case, mode, focus=None):
     if nsites >= 2 and (st.get("c06_decisions", 0) or st.get("c08_waits", 0)):
         col.hashes.add(S.spec_hash(case["spec"]) + sched.order_hash(case) + "%08x" % zlib.crc32(repr((case["op"], case["faults"])).encode()))
     rp = None
-    for x in viol:
+    gviol, gst = sched.check_generic(case["log"])
+    col.counters.update(gst)
+    for x in list(viol) + list(gviol):
         if rp is None:
             rp = case_replay(case, mode)
         col.violation(x["prop"], x["mech"], x["witness"], rp)
